@@ -710,7 +710,7 @@ example : spec (.all false [.leaf (.lessThan (.int 3)), .not (.leaf (.equals (.i
 example : spec (.leaf (.lessThan (.int 3))) (.str [97]) = none := by decide
 -- dict matchers over keys that cannot be ordered with each other (1, 'a', None, b'k', (1, 2))
 example : spec (.dict .exact [.none, .int 1, .str 0] [.leaf .always, .leaf (.equals (.int 5)), .leaf .never])
-    (.dict [.int 1, .str 0, .tup [1, 2]] [.int 5, .int 0, .none]) = some .mismatch := by decide
+    (.dict [.int 1, .str 0, .tup [.int 1, .str 0], .tup [.str 0, .int 1]] [.int 5, .int 0, .none, .none]) = some .mismatch := by decide
 example : matchImpl true (.leaf (.keysEqual [.str 0, .int 1])) (.dict [.int 1, .str 0] [.int 0, .int 0]) = .match := by decide
 -- the propagate rule of Raises
 example : spec (.raises (.leaf (.excType [.valueError]))) (.fnRaise ⟨.keyboardInterrupt, 0⟩) = some (.raised .keyboardInterrupt) := by decide
